@@ -37,8 +37,8 @@ def run(repo_root, grp, tier='quick', seed=0):
         cmd = ['cargo', 'test', '--offline', '--lib', '--release'] if grp.get('release') else ['cargo', 'test', '--offline', '--lib']
         for ft in grp.get('features', []):
             cmd += ['--features', ft]
-        cmd += ['verif_bounded::%s' % t for t in grp.get('filters', [])] or ['verif_bounded::']
-        cmd += ['--', '--test-threads', '8', '--nocapture']
+        cmd += ['--'] + (['verif_bounded::%s' % t for t in grp.get('filters', [])] or ['verif_bounded::'])
+        cmd += ['--test-threads', '8', '--nocapture']
         out['cmd'] = 'cd <scratch copy of /repo>/%s && VERIF_TIER=%s %s' % (ek.CRATES[grp['crate']]['dir'], tier, ' '.join(cmd))
         env = dict(os.environ)
         env['CARGO_NET_OFFLINE'] = 'true'
